@@ -133,6 +133,12 @@ fn rerun_programs() -> Vec<(String, String, String)> {
     v.push(("unknown macro among many names".into(), format!("{}start:\nmd(ax)\n", many), "".into()));
     v.push(("macro used with too few arguments among many names".into(), format!("{}start:\nmc()\n", many), "".into()));
     v.push(("code label used as data among many names".into(), format!("{}start:\nmov al, byte two\n", many), "".into()));
+    // an unknown name with SEVERAL equally near known names of its kind (a "did you mean" taken from a hash
+    // collection would pick a different one in different processes)
+    v.push(("undefined label with equally near labels".into(), "start:\nnext1:\ninc ax\nnext2:\ninc bx\nnext4:\nnext5:\njmp next3\n".into(), "".into()));
+    v.push(("unknown procedure with equally near procedures".into(), "def fn1 {\ninc ax\n}\ndef fn2 {\ninc bx\n}\ndef fn4 {\ninc cx\n}\nstart:\ncall fn3\n".into(), "".into()));
+    v.push(("unknown data label with equally near data labels".into(), "dat1: db 1\ndat2: db 2\ndat4: db 4\ndat5: db 5\nstart:\nmov al, byte dat3\n".into(), "".into()));
+    v.push(("unknown macro with equally near macros".into(), "macro mac1(r) -> inc r <-\nmacro mac2(r) -> dec r <-\nmacro mac4(r) -> not r <-\nstart:\nmac3(ax)\n".into(), "".into()));
     v
 }
 
@@ -891,7 +897,7 @@ pub fn run(tier: &Tier) -> i32 {
     }
     let mut cov = Coverage::default();
     cov.exhaustive = true;
-    cov.rule = format!("(a) {} programs with 1-4 entries in the undefined-label set (every order of appearance of up to 4 undefined labels, forward jumps to defined labels in the same set, a label used twice, missing start, later range error, labels in procedures and macros) each run under ALL iteration orders of the set (hook VERIF_ORDER, k! orders) plus two runs in natural hash order: outputs must be byte-identical; {} further programs (the repository's examples, syntax errors, prompt session, divide error, input) rerun 8 times in separate processes; among them 12 refused programs with several macros / labels / procedures / data labels each (mutual recursion through 2, 3 and 4 macros, no start, duplicates, unknown names), whose diagnostic must not depend on the order of a hash collection (repetition, not enumeration). (b) VM::new() and VM::default() after every history of <= 2 instructions on another machine: all registers and all 2^20 bytes zero except FLAGS=F000h, CS=FFFFh. (c) explicit-state: all pairs of instruction streams of length <= {} over a {}-instruction alphabet (register, flag, memory, stack{} instructions) on two machines with different initial states sharing ONE Interpreter object, in ALL interleavings; each machine's final registers, call stack, return values and watched memory cells must equal the stream run alone on fresh objects (whole-memory audit on a subset). (d) every history of <= {} lines (12-14 line alphabets: valid, invalid, erroring, REP, call/ret, recursion error) through one Preprocessor / DataParser / Interpreter object followed by each probe line: answer and effect equal a fresh object's; the same for one preprocessor CONTEXT that is cleared with the library's clear() and reused (histories ending in the nesting limit, recursion and range errors), including the source map such a context yields; print reader: histories of <= 2 commands in one prompt session of the real binary. Free-running 8-thread smoke run with private machines (not deciding). Static audit of iteration/static/clock sites listed under unowned_nondeterminism_candidates (a note, not a verdict)", progs.len(), reruns.len(), maxlen, env.alpha.len(), if tier.thorough { ", call/ret, REP, xchg, label operand" } else { "" }, hl);
+    cov.rule = format!("(a) {} programs with 1-4 entries in the undefined-label set (every order of appearance of up to 4 undefined labels, forward jumps to defined labels in the same set, a label used twice, missing start, later range error, labels in procedures and macros) each run under ALL iteration orders of the set (hook VERIF_ORDER, k! orders) plus two runs in natural hash order: outputs must be byte-identical; {} further programs (the repository's examples, syntax errors, prompt session, divide error, input) rerun 8 times in separate processes; among them 16 refused programs with several macros / labels / procedures / data labels each (mutual recursion through 2, 3 and 4 macros, no start, duplicates, unknown names), whose diagnostic must not depend on the order of a hash collection (repetition, not enumeration). (b) VM::new() and VM::default() after every history of <= 2 instructions on another machine: all registers and all 2^20 bytes zero except FLAGS=F000h, CS=FFFFh. (c) explicit-state: all pairs of instruction streams of length <= {} over a {}-instruction alphabet (register, flag, memory, stack{} instructions) on two machines with different initial states sharing ONE Interpreter object, in ALL interleavings; each machine's final registers, call stack, return values and watched memory cells must equal the stream run alone on fresh objects (whole-memory audit on a subset). (d) every history of <= {} lines (12-14 line alphabets: valid, invalid, erroring, REP, call/ret, recursion error) through one Preprocessor / DataParser / Interpreter object followed by each probe line: answer and effect equal a fresh object's; the same for one preprocessor CONTEXT that is cleared with the library's clear() and reused (histories ending in the nesting limit, recursion and range errors), including the source map such a context yields; print reader: histories of <= 2 commands in one prompt session of the real binary. Free-running 8-thread smoke run with private machines (not deciding). Static audit of iteration/static/clock sites listed under unowned_nondeterminism_candidates (a note, not a verdict)", progs.len(), reruns.len(), maxlen, env.alpha.len(), if tier.thorough { ", call/ret, REP, xchg, label operand" } else { "" }, hl);
     cov.bounds = json!({"order_programs": progs.len(), "order_runs": orders_run.load(Ordering::Relaxed), "distinct_first_lines_in_order_runs": distinct_msgs.lock().unwrap().len(), "rerun_programs": reruns.len(), "fresh_machine_checks": fresh_checks.load(Ordering::Relaxed), "streams": streams.len(), "stream_pairs": pairs_n.load(Ordering::Relaxed), "interleaved_runs": inter_n.load(Ordering::Relaxed), "whole_memory_audits": full_audits.load(Ordering::Relaxed), "parser_history_probes": hist_n.load(Ordering::Relaxed), "prompt_session_probes": prompt_hist.load(Ordering::Relaxed), "threads_joined": thread_runs, "tier": tier.name()});
     cov.extra.insert("unowned_nondeterminism_candidates".into(), json!(audit));
     cov.assumptions = common_assumptions();
